@@ -48,6 +48,13 @@ def cases_for(res, rng):
         else:
             g = F.rand_ltl_path(rng, rng.choice([5, 6]), max_temporal=4 if (quick or i % 10) else 5)
         cases.append((K, ('A', g), 'obj'))
+    from common import KS
+    for n in ((40,) if quick else (40, 90)):
+        chain = KS([[i + 1] for i in range(n - 1)] + [[n - 1]], [['p'] if i < n - 3 else ['q'] for i in range(n)])
+        ring = KS([[(i + 1) % n] for i in range(n)], [['p'] if i % 7 else ['p', 'q'] for i in range(n)])
+        for K in (chain, ring):
+            for t in (('G', ('ap', 'p')), ('U', ('ap', 'p'), ('ap', 'q')), ('F', ('G', ('ap', 'q'))), ('G', ('F', ('ap', 'q')))):
+                cases.append((K, ('A', t), 'obj'))
     return cases, n_exh
 
 
